@@ -131,7 +131,7 @@ contract("C17", "ifft_of_fft_all_shapes", [F + "fft", F + "ifft"])(_roundtrip_al
 contract("C17", "fft_of_ifft_all_shapes", [F + "fft", F + "ifft"])(_roundtrip_all_shapes('fft(ifft)'))
 
 
-def _image(c, shape, prefix="a", spacing=(0.1, 0.15), **meta):
+def _image(c, shape, prefix="a", spacing=(1.0, 1.5), **meta):
     vals = np.empty(shape, dtype=object if c.symbolic else complex)
     for i in range(shape[0]):
         for j in range(shape[1]):
@@ -309,6 +309,8 @@ def propagate_scalar(c):
     c.ensures("other-metadata-kept", c.and_(c.eq(out.attrs['noise_sd'], 0.1),
                                             c.eq(out.attrs['illum_polarization'].values, a.attrs['illum_polarization'].values)))
     c.ensures("input-untouched", c.and_(c.eq(a.attrs['medium_index'], 1.0), c.eq(a.attrs['illum_wavelen'], 0.5)))
+    # vacuity guard: with the chosen sampling some frequency propagates, so propagation is not the identity
+    c.canary("propagation-is-the-identity", c.eq(out.values.reshape(-1), a.values.reshape(-1)))
 
 
 @contract("C17", "propagate_missing_optics", [CP + "propagate"])
@@ -331,7 +333,7 @@ def propagate_linear(c):
     a = _image(c, (2, 2), "a", **meta)
     b = _image(c, (2, 2), "b", **meta)
     s = c.complex("s")
-    comb = data_grid(a.values[0] * s + b.values[0], spacing=(0.1, 0.15), **meta)
+    comb = data_grid(a.values[0] * s + b.values[0], spacing=(1.0, 1.5), **meta)
     pa, pb, pc = (c.call(cp.propagate, im, d) for im in (a, b, comb))
     c.ensures("linear", c.eq(pc.values, pa.values * s + pb.values))
 
@@ -375,6 +377,6 @@ def propagate_composition(c):
     a = _image(c, (2, 2), "a", **meta)
     step1 = c.call(cp.propagate, a, d1)
     two = c.call(cp.propagate, step1.isel(z=0, drop=True).expand_dims('z').transpose('z', 'x', 'y')
-                 if False else data_grid(step1.isel(z=0).transpose('x', 'y').values, spacing=(0.1, 0.15), **meta), d2)
+                 if False else data_grid(step1.isel(z=0).transpose('x', 'y').values, spacing=(1.0, 1.5), **meta), d2)
     one = c.call(cp.propagate, a, d1 + d2)
     c.ensures("d1-then-d2", c.eq(two.isel(z=0).transpose('x', 'y').values, one.isel(z=0).transpose('x', 'y').values))
